@@ -591,7 +591,19 @@ struct TemplateGen {
         for (size_t i = 0; i < n; i++) s += outer();
         return s;
     }
+    // no tag at all: 0..600 units of text that cannot start one (no '{', no '<')
+    std::string plain_document() {
+        static const char *words[] = {"Hello", "world", "a>b", "}", "x = y", "&amp;", "100%", "\n", "\"quoted\"", "if case", "loop", "/>", "]", "  "};
+        std::string        s;
+        size_t             target = r.chance(1, 3) ? (size_t)r.below(64) : 64 + (size_t)r.below(540);
+        while (s.size() < target) {
+            s += words[r.below(sizeof(words) / sizeof(words[0]))];
+            s += ' ';
+        }
+        return s;
+    }
     std::string document(int depth) {
+        if (r.chance(1, 30)) return plain_document();
         if (r.chance(1, 12)) return soup_document();
         if (r.chance(1, 12)) return misnested_document();
         if (r.chance(1, 50)) return text() + deep_document() + text();
